@@ -67,6 +67,17 @@ def release_drive(runs=(150, 4000)):
     return dict(name="release", menu=MENU_RELEASE, runs=runs, len=45, consts=dict(MaxBatch=8))
 
 
+# dust: one- and two-unit amounts around slashing (floors to zero, empty-valued batches, 1-unit pools)
+MENU_DUST = {"items": {"bond": 5, "bond_st": 5, "unbond_b": 7, "unbond_st": 7, "advance": 9, "slash": 4, "slash_unb": 1, "withdraw": 8, "convert_b_st": 2,
+                       "convert_st_b": 2, "check_slashing": 1, "transfer_b": 1},
+             "amax": 3, "dts": [3, 5, 6], "slash_div": [2, 3, 10], "probes": ["withdraw", "unbond_b", "unbond_st"], "probe_every": 3,
+             "vary": {"fee": [[0, 5000000, 0], [0, 0, 0], [0, 500000000, 0]], "thr": [[1, 0, 0]], "periods": [[2, 5], [1, 7]]}}
+
+
+def dust_drive(runs=(150, 4000)):
+    return dict(name="dust", menu=MENU_DUST, runs=runs, len=45, consts=dict(MaxBatch=8))
+
+
 PLANS = {}
 
 PLANS["C01"] = dict(
@@ -76,7 +87,7 @@ PLANS["C01"] = dict(
     hunt=[hf_hunt("fee05")],
     sim=[hf_sim("fee05")],
     drive=hub_drives())
-PLANS["C01"]["drive"] = hub_drives() + [release_drive()]
+PLANS["C01"]["drive"] = hub_drives() + [release_drive(), dust_drive()]
 
 PLANS["C05"] = dict(invariants=["Inv_C05"], actions=["Act_C05"], rule="", mc=[], drive=[])
 
@@ -278,3 +289,24 @@ PLANS["C19"] = dict(
     sim=[hf_sim("flow", consts=dict(NV=2, InitVals=[1, 2]), extra=dict(Features=["core", "slash", "reward", "registry"], RewardAmts=[40, 100]))],
     drive=[dict(name="dispatch", menu=MENU_DISP, runs=(150, 4000), len=40, consts=dict(MaxBatch=8, NV=2, InitVals=[1, 2])),
            PLANS["C13"]["drive"][0]])
+
+
+def seeded(inv, act, seeds=(10, 150), depth=(2, 3), timeout=(150, 3000), **kw):
+    return dict(menu=MENU_RELEASE if kw.pop("release", False) else MENU_HUB, runs=(30, 200), len=40, consts=dict(MaxBatch=8), seeds=seeds, depth=depth,
+                timeout=timeout, inv=inv, act=act, extra=dict(Amts=[1, 7], Dts=[3, 5], SlashDiv=[2], Features=["core", "slash", "donate"]), **kw)
+
+
+PLANS["C01"]["seeded"] = [seeded(["Inv_C01"], ["Act_C01s"], release=True)]
+PLANS["C02"]["seeded"] = [seeded([], ["Act_C02"], thorough_only=True)]
+PLANS["C03"]["seeded"] = [seeded(["Inv_C03"], ["Act_C03"], thorough_only=True)]
+PLANS["C04"]["seeded"] = [seeded([], ["Act_C04"])]
+PLANS["C05"]["seeded"] = [seeded([], ["Act_C05"], thorough_only=True)]
+PLANS["C06"]["seeded"] = [seeded(["Inv_C06"], ["Act_C06"], release=True, thorough_only=True)]
+PLANS["C08"]["seeded"] = [seeded(["Inv_C08"], ["Act_C08"], thorough_only=True)]
+PLANS["C09"]["seeded"] = [seeded([], ["Act_C09"])]
+PLANS["C03"]["kernel"] = [dict(cases=(20000, 400000))]
+PLANS["C14"]["kernel"] = [dict(cases=(20000, 400000))]
+PLANS["C17"]["kernel"] = [dict(cases=(20000, 400000))]
+
+for _p in ("C03", "C04", "C09"):
+    PLANS[_p]["drive"] = PLANS[_p]["drive"] + [dust_drive()]
